@@ -3,7 +3,7 @@
 From Coq Require Import NArith ZArith List Bool Lia.
 From M17 Require Import Bits ImplCRC SpecCRC ConstsCrc LemmasCRC_A LemmasCRC_B LemmasCRC_C SpecM17 ImplMod ConstsMod
   LemmasMod_C LemmasMod_D ImplViterbi ImplFrameDecoder FrameDecoderInst LemmasFD_Inst
-  LemmasRT_A LemmasRT_E.
+  LemmasRT_A LemmasRT_E LemmasRT_H.
 Import ListNotations.
 Local Open Scope N_scope.
 
@@ -16,14 +16,15 @@ Lemma rt_lsf_m17mod (uninit : list bool) (can : N) (src dest : list N) (s : fd_s
   exists (L : list N) (f : list bool),
     send_lsf uninit can src dest AUDIO = (L, [OutFrame SpecM17.sync_lsf f]) /\
     exists c : Z, (full_conf m -> c = 0%Z) /\
-      fd_observe (fd_step s SLsf (soft m f) r) = (update_state MLsf (bytes_bits L), ROk, Some c, [mkcb FLsf L c]) /\
+      fd_observe (fd_step s SLsf (soft m f) r) = (MStream, ROk, Some c, [mkcb FLsf L c]) /\
       fd_lsf (fd_st_of (fd_step s SLsf (soft m f) r)) = L.
 Proof. intros Hs Hd Hc Hh Lm F.
   exists (spec_lsf dest src can), (spec_lsf_frame (spec_lsf dest src can)).
   split; [apply send_lsf_ok; assumption|].
   destruct (rt_lsf s m (spec_lsf dest src can) r Hh Lm F (spec_lsf_length dest src can) (spec_lsf_bytes dest src can))
     as (c & C0 & _ & Hz & _).
-  exists c. split; [exact C0|]. destruct (Hz (spec_lsf_crc_ok dest src can)) as (O & Ls & _). split; assumption. Qed.
+  exists c. split; [exact C0|]. destruct (Hz (spec_lsf_crc_ok dest src can)) as (O & Ls & _).
+  rewrite (spec_lsf_enters_stream dest src can MLsf Hc) in O. split; [exact O | exact Ls]. Qed.
 
 Lemma rt_stream_m17mod (uninit : list bool) (lsf : list N) (n : nat) (fnarg : N) (payload : list N)
     (s : fd_state) (m : list Z) (r : bool) :
